@@ -103,6 +103,9 @@ func (a *Analyzer) runJoin(fr *frame, mem *Memory) []result {
 				a.traceNotCovered(fr, b, act.count[b], st, old)
 			}
 			st = a.mergeState(fr, b, old, st, act.iter[b] >= joinWidenAfter)
+			if act.domWork(b) == act.epoch[b] && a.leqState(fr, st, old) {
+				continue // the merged (saturated) state is the one already explored
+			}
 		}
 		if act.count[b] > 40*a.UnrollLimit || act.iter[b] > a.UnrollLimit {
 			a.undecide(b.Instrs[0], "block processed more than %d times in join mode", a.UnrollLimit)
